@@ -102,7 +102,43 @@ def min_residual(M, r0, m, exact):
     return K.float_min_residual(M.astype(np.complex128), r0.astype(np.complex128), m)
 
 
+def run_option(case, seed):
+    """the two further switches of gmres(): use_triangular (Givens QR of the Hessenberg matrix) and use_householder (Householder Arnoldi); single
+    right-hand side (the docstring restricts use_triangular to one), real and complex, every m in 1..n+2.  Keys are per switch and symptom."""
+    _, opt, n, tok = case
+    M, V, lam = family("nonnormal", n, tok, seed)
+    g = P.rng(seed, "c13opt", n, tok)
+    b = (g.standard_normal(n) + (1j * g.standard_normal(n) if np.iscomplexobj(M) else 0)).astype(M.dtype)
+    vio, ntr = [], 0
+
+    def bad(sym, detail):
+        key = f"C13|option:{opt}|{sym}"
+        if not any(v["key"] == key for v in vio):
+            vio.append({"key": key, "what": f"gmres(..., {opt}=True): {sym}", "detail": {**detail, "n": n, "dtype": tok}})
+
+    with warnings.catch_warnings():
+        warnings.simplefilter("ignore")
+        for m in range(1, n + 3):
+            ntr += 1
+            try:
+                x, _ = gmres(ops.Dense(M), b.copy(), max_iters=m, tol=1e-12, **{opt: True})
+                x = np.asarray(x)
+            except Exception as e:
+                bad(f"exc:{type(e).__name__}", {"msg": str(e)[:200], "m": m})
+                continue
+            if x.shape != b.shape or not np.all(np.isfinite(x)):
+                bad("shape-or-nonfinite", {"m": m})
+                continue
+            res = float(np.linalg.norm(b - M @ x))
+            opt_res = K.float_min_residual(M.astype(np.complex128), b.astype(np.complex128), m)
+            if res > (1 + 1e-6) * opt_res + 1e-9 * np.linalg.norm(b):
+                bad("not-the-residual-minimiser", {"m": m, "residual": res, "krylov_optimum": opt_res})
+    return {"states": n + 2, "transitions": ntr, "outcome": f"opt:{opt}:{len(vio)}", "violations": vio}
+
+
 def run_case(case, seed):
+    if case[0] == "OPT":
+        return run_option(case, seed)
     fam, n, tok, bkind, x0kind, tol, entry, ms = case
     M, V, lam = family(fam, n, tok, seed)
     b, deg = rhs(bkind, M, V, n, tok, seed)
@@ -206,12 +242,16 @@ def cases(tier, seed):
                             if tier == "quick" and n > 8 and (tol == 1e-6 or entry == "inv") and bk not in ("rand1", "deg2", "mix2", "lowp"):
                                 continue
                             out.append([fam, n, tok, bk, x0k, tol, entry, ms])
-    _DESC.update({"groups": len(out), "runs": sum(len(c[-1]) for c in out), "sizes": small + big})
+    for opt in ("use_triangular", "use_householder"):
+        for n in (3, 5, 8):
+            for tok in ("f8", "c16"):
+                out.append(["OPT", opt, n, tok])
+    _DESC.update({"groups": len(out), "runs": sum(len(c[-1]) for c in out if c[0] != "OPT"), "sizes": small + big})
     return out
 
 
 def case_signature(case):
-    return ",".join(map(str, case[:7]))
+    return ",".join(map(str, case[:7]))  # (OPT cases have four fields)
 
 
 def describe(tier, seed):
@@ -219,7 +259,8 @@ def describe(tier, seed):
         "bound": "operators: integer nonsingular n=1..6 (real: exact rational optimum; complex), complex normal, real / complex "
                  "non-normal with prescribed eigenvectors (also at scale 2^-45 and 2^40), n in " + str(_DESC.get("sizes")) + "; right-hand sides: 1 column, 3 columns "
                  "(norms 1e-3, 1, 1e3), e1, eigenvector, minimal-polynomial degree 2 and 3, a zero column among non-zero ones, a heterogeneous batch (eigenvector + generic), float32 / complex64 columns on a double-precision operator, an integer vector; x0 in {none, random}; every m in 1..n+3 "
-                 "(n<=8) / {1,2,5,10,25,n,n+5}; tol in {1e-12, 1e-6}; entry points gmres() and inv(A, GMRES()) @ b",
+                 "(n<=8) / {1,2,5,10,25,n,n+5}; tol in {1e-12, 1e-6}; entry points gmres() and inv(A, GMRES()) @ b; "
+                 "the switches use_triangular / use_householder of gmres() on one right-hand side, n in {3, 5, 8}, real and complex, every m in 1..n+2",
         "alphabet": _DESC,
         "oracle": "per column: residual <= (1+1e-6) * Krylov optimum + slack; <= initial residual; non-increasing in m; ~0 at m >= n or "
                   "minimal-polynomial degree; block products <= m + 1; inputs not mutated",
